@@ -146,6 +146,8 @@ Definition swallow_own (id : Z) (r : res) : res :=
   match r with Some (ELimit id') => if id' =? id then None else r | _ => r end.
 Definition limit_node (id : Z) (lim : outcome value) (src : node) : node := fun S p m s =>
   on_eval s lim (fun v =>
+    if int_of v =? 0 then ret s            (* LIMIT 0: returns before running the source (fix of C05) *)
+    else
     let x := src (S * Z)%type (limit_cb id (int_of v) p) (lift_m m) (s, 0) in
     (fst (rst x), swallow_own id (rres x), rgen x)).
 
